@@ -173,9 +173,20 @@ def __init__(self, num_antennas, sample_rate=3*u.GHz, fch1=0*u.GHz, ascending=Tr
         T.GE0_PATTERNS.remove(delay_within_max)
         if not had_ns:
             T.POSITIVE.discard('num_samples')
+    SO = T.mk_attr(sym('self'), 'start_obs')
+
+    def first_request_value(e):
+        """the value stored on the first request of an observation: under `if self.start_obs:` as it stands, the
+        start_obs arm of a conditional expression otherwise"""
+        if any(pretty(c) == 'self.start_obs' for c in e.pc):
+            return e.data['value']
+        v = T.assume(e.data['value'], {SO.key: True})
+        return v if v.key != e.data['value'].key else None
+
     def bg_slice(e):
         """a local bound to a slice of a shared background stream's samples: self.bg_x.v[lo:hi] / self.bg_y.v[lo:hi]"""
-        va = e.data['value'].single_atom()
+        v0 = first_request_value(e)
+        va = v0.single_atom() if v0 is not None else None
         if va is None or va.kind != 'sub':
             return None
         ba = va.args[0].single_atom()
@@ -184,12 +195,11 @@ def __init__(self, num_antennas, sample_rate=3*u.GHz, fch1=0*u.GHz, ascending=Tr
             if sa is not None and sa.kind == 'attr' and sa.args[1] in ('bg_x', 'bg_y') and sa.args[0].key == sym('self').key:
                 return sa.args[1]
         return None
-    bg = [e for e in I.events if e.kind == 'store' and e.data.get('target') == 'name' and bg_slice(e) is not None
-          and any(pretty(c) == 'self.start_obs' for c in e.pc)]
+    bg = [e for e in I.events if e.kind == 'store' and e.data.get('target') == 'name' and bg_slice(e) is not None]
     ctx.require(bg, 'get_samples: the first-request background slice was not found')
     n_first = ctx.spec(gs, 'num_samples + self.max_delay', I=ctx.interp(expand=False))
     for e in bg:
-        lo, hi = slice_len(e.data['value'])
+        lo, hi = slice_len(first_request_value(e))
         ok = lo is not None and hi is not None
         if ok:
             length = T.assume(hi - lo, {sym('self').key: True})
